@@ -470,3 +470,7 @@ def run_thorough(ck):
         ck.configs.add(cfg)
         roots = decode_roots(P)
         abort.check(ck, P, roots, "ABORT/decode@" + cfg, abort_table.JUSTIFIED, api_fns=None, label="decode")
+
+# session 5 (round 9, D24)
+EXPLANATION = EXPLANATION + " " + (
+    'GUARD/fold-copy-dst: every destination of Crc32Fold::fold_copy is an end-bounded cut of the padded window buffer (the pclmulqdq kernel asserts equal lengths). SIB/same-terms-same-threshold: ordering decisions of the decoder over the same linear combination of state fields and working locals (the repeat-overflow test in the three repeat arms of dispatch and back) decide at one threshold. PAIR/second-level-bits: the bit count of every saved first-level table entry is part of the exit test of its second-level fetch loop.')
